@@ -160,33 +160,36 @@ def castValue (n : Node) (v : Val) : Option Val :=
         else (if isArr v2 then none else some v2)
   else castScalar (if n.kw = .mod then .str else n.kw) v
 
-/-- the unit table regenerated from the live unit objects: symbol, dimension id, magnitude -/
-abbrev UnitTable := List (Str × Nat × Rat)
+/-- the unit table regenerated from the live unit objects: symbol, dimension id, and the affine
+    map `x ↦ a·x + b` into the first unit of that dimension (`b = 0` for all but temperatures) -/
+abbrev UnitTable := List (Str × Nat × Rat × Rat)
 
-def lookupUnit (tbl : UnitTable) (u : Str) : Option (Nat × Rat) :=
+def lookupUnit (tbl : UnitTable) (u : Str) : Option (Nat × Rat × Rat) :=
   match tbl.find? (fun e => e.1 = u) with
   | some e => some e.2
   | none => none
 
 mutual
-def scaleVal (f : Rat) : Val → Val
-  | .num q => .num (q * f)
-  | .arr l => .arr (scaleList f l)
-  | .bool b => .bool b
+/-- `x ↦ a·x + b` on every number of the value (numpy broadcasts the conversion) -/
+def affVal (a b : Rat) : Val → Val
+  | .num q => .num (q * a + b)
+  | .arr l => .arr (affList a b l)
+  | .bool x => .bool x
   | .str s => .str s
-def scaleList (f : Rat) : List Val → List Val
+def affList (a b : Rat) : List Val → List Val
   | [] => []
-  | x :: t => scaleVal f x :: scaleList f t
+  | x :: t => affVal a b x :: affList a b t
 end
 
 /-- `NumberType.convert(unit)` with `self.unit = from`: nothing happens unless both units are
-    stated and differ; then `Quantity(value, from).value(to)`. -/
+    stated and differ; then `Quantity(value, from).value(to)`, element by element. -/
 def convertVal (tbl : UnitTable) (v : Val) (frm to : Option Str) : Option Val :=
   match to, frm with
   | some t, some f =>
     if f = t then some v
     else match lookupUnit tbl f, lookupUnit tbl t with
-      | some (df, mf), some (dt, mt) => if df = dt then some (scaleVal (mf / mt) v) else none
+      | some (df, af, bf), some (dt, at', bt) =>
+        if df = dt then some (affVal (af / at') ((bf - bt) / at') v) else none
       | _, _ => none
   | _, _ => some v
 
@@ -347,6 +350,7 @@ def modifyValue (tbl : UnitTable) (t m : Node) : Except String Node :=
           else match convertVal tbl v m.unitsRaw t.unitsRaw with
           | none => .error "modify: units"
           | some v' => .ok { t with value := some v', slice := [] }
+        else if m.unitsRaw.isSome then .error "modify: units on a str/bool node"
         else .ok { t with value := some v, slice := [] }
 
 /-- replace the first node of that name (the `for n in range(len(target.nodes))` loop) -/
@@ -518,7 +522,7 @@ structure SNode where
   kw : Kw
   dims : List Dim
   unit : Option Str
-  value : Val
+  value : Option Val        -- `none`: declared, not yet assigned
   constant : Bool
   condition : Option Str
   format : Option Str
@@ -549,6 +553,7 @@ inductive SVal where
 
 inductive SStmt where
   | defn (path : List Str) (kw : Kw) (dims : List Dim) (v : SVal) (unit : Option Str)
+  | decl (path : List Str) (kw : Kw) (dims : List Dim) (unit : Option Str)
   | modl (path : List Str) (v : SVal) (unit : Option Str)
   | imp (dest : List Str) (source : Option Str) (q : SQuery)
   | constant (path : List Str)
@@ -582,9 +587,11 @@ def sEval (env : SEnv) : SVal → Except SErr (Val × Option Str)
     | none => .error .outside
     | some ns =>
       match select q ns with
-      | [n] => match specSlice sl n.value with
-        | some v => .ok (v, n.unit)
-        | none => .error .outside
+      | [n] => match n.value with
+        | none => .error .outside                    -- declared, not yet assigned
+        | some val => match specSlice sl val with
+          | some v => .ok (v, n.unit)
+          | none => .error .outside
       | _ => .error .rejected
 
 /-- the value conforms to the declared type and dimensions -/
@@ -618,8 +625,26 @@ def specModF (tbl : UnitTable) (v : Val) (unit' : Option Str) (n : SNode) : Opti
     | some v' =>
       if isNumKw n.kw then
         (if unit'.isSome && n.unit.isNone then none
-         else (convertVal tbl v' unit' n.unit).map (fun w => { n with value := w }))
-      else some { n with value := v' }
+         else (convertVal tbl v' unit' n.unit).map (fun w => { n with value := some w }))
+      else if unit'.isSome then none
+      else some { n with value := some v' }
+
+/-- one imported node: re-created at its destination, or — when a node of that path already
+    exists — assigned to it like a modification (same type required; current value converted from
+    the imported node's unit into the existing node's definition unit; the existing node keeps
+    its own constraints) -/
+def sImportOne (tbl : UnitTable) (nodes : List SNode) (s : SNode) : Option (List SNode) :=
+  if nodes.any (fun m => m.path = s.path) then
+    match s.value with
+    | none => none
+    | some v => sUpdate s.path (fun t => if t.kw = s.kw then specModF tbl v s.unit t else none) nodes
+  else some (nodes ++ [s])
+
+def sImportAll (tbl : UnitTable) (nodes : List SNode) : List SNode → Option (List SNode)
+  | [] => some nodes
+  | s :: rest => match sImportOne tbl nodes s with
+    | none => none
+    | some nodes' => sImportAll tbl nodes' rest
 
 def sStep (tbl : UnitTable) (env : SEnv) : SStmt → Except SErr SEnv
   | .defn path kw dims sv unit =>
@@ -632,7 +657,7 @@ def sStep (tbl : UnitTable) (env : SEnv) : SStmt → Except SErr SEnv
         else match conforms kw dims v with
           | none => .error .outside
           | some v' => .ok { env with nodes := env.nodes ++
-              [⟨path, kw, dims, unit', v', false, none, none, [], [], none⟩] }
+              [⟨path, kw, dims, unit', some v', false, none, none, [], [], none⟩] }
   | .modl path sv unit =>
     match sEval env sv with
     | .error e => .error e
@@ -641,14 +666,19 @@ def sStep (tbl : UnitTable) (env : SEnv) : SStmt → Except SErr SEnv
       match sUpdate path (specModF tbl v unit') env.nodes with
       | some ns => .ok { env with nodes := ns }
       | none => .error .outside
+  | .decl path kw dims unit =>
+    if env.nodes.any (fun n => n.path = path) then .error .outside
+    else if !unitOk tbl kw unit then .error .outside
+    else .ok { env with nodes := env.nodes ++ [⟨path, kw, dims, unit, none, false, none, none, [], [], none⟩] }
   | .imp dest source q =>
     match sLookup env source with
     | none => .error .outside
     | some ns =>
       let sel := (select q ns).map (sReroot dest q)
       if sel.isEmpty then .ok { env with mayReject := true }     -- rejected or nothing added
-      else if sel.any (fun n => env.nodes.any (fun m => m.path = n.path)) then .error .outside
-      else .ok { env with nodes := env.nodes ++ sel }
+      else match sImportAll tbl env.nodes sel with
+        | some ns' => .ok { env with nodes := ns' }
+        | none => .error .outside
   | .constant path => sAttr env path (fun n => { n with constant := true })
   | .condition path e => sAttr env path (fun n => { n with condition := some e })
   | .format path f => sAttr env path (fun n => { n with format := some f })
